@@ -625,6 +625,68 @@ def validity_range_orderings(chk):
         chk.ok(R, inst, F.where(first), '81 ordering cases walked through %d comparisons' % len(cmps))
 
 
+def dynamic_lookup_key_agrees(chk):
+    """"Supplying anchors through the on-demand lookup callback gives the same verdicts as supplying them statically": the DN hash
+    handed to trust_anchor_dynamic must be the one the anchor is then compared with by the same check_single_* helper the static
+    loop uses - the subject hash (current_dn_hash) for direct trust, the issuer hash (saved_dn_hash) for CA anchors."""
+    R = 'dynamic-lookup-key-agrees'
+    src = 'src/x509/x509_minimal.c'
+    u = build.load_unit(src)
+    L = irf.Layouts(u)
+    funcs = {f['name']: irf.Func(u, f) for f in u['functions'] if f.get('blocks')}
+    F = funcs.get('br_x509_minimal_run')
+    if F is None:
+        raise AnalysisBroken('br_x509_minimal_run vanished')
+    cpu = L.field('br_x509_minimal_context', 'cpu')[0]
+    o_dyn = L.field('br_x509_minimal_context', 'trust_anchor_dynamic')[0]
+
+    def helper_field(G):
+        """offset (in the context) of the hash the helper compares its hashed_DN parameter with"""
+        for c in G.calls():
+            if (c.get('callee') or '').startswith('memcmp'):
+                for a in c['ops'][:2]:
+                    b, o = G.addr_of(a)
+                    if b == {'k': 'a', 'v': 0} and o is not None:
+                        return o
+        return None
+    sw = [b['insts'][-1] for b in F.blocks if b['insts'][-1]['op'] == 'switch']
+    D = F.block_of[max(sw, key=lambda i: len(i['ops']))['id']]
+    n = 0
+    for c in F.calls():
+        if c.get('callee') is not None or not c.get('cv'):
+            continue
+        cv = F.strip_casts(c['cv'])
+        if cv['k'] != 'i' or F.insts[cv['v']]['op'] != 'load':
+            continue
+        b, o = F.addr_of(F.insts[cv['v']]['ops'][0])
+        if b != {'k': 'a', 'v': 0} or o is None or o + cpu != o_dyn:
+            continue
+        kb, ko = F.addr_of(c['ops'][1])
+        key_off = ko + cpu if kb == {'k': 'a', 'v': 0} and ko is not None else None
+        # the helper called in the same native
+        seen, st = {F.block_of[c['id']]}, [F.block_of[c['id']]]
+        while st:
+            x = st.pop()
+            for y in F.succ[x]:
+                if y != D and y not in seen:
+                    seen.add(y)
+                    st.append(y)
+        hs = [h for h in F.calls() if (h.get('callee') or '').startswith('check_single_') and F.block_of[h['id']] in seen]
+        n += 1
+        if not hs or hs[0]['callee'] not in funcs:
+            raise AnalysisBroken('dynamic lookup at line %s: no check_single_* helper in the same native' % c.get('line'))
+        want = helper_field(funcs[hs[0]['callee']])
+        fa = L.field_at('br_x509_minimal_context', want) if want is not None else None
+        fk = L.field_at('br_x509_minimal_context', key_off) if key_off is not None else None
+        inst = 'br_x509_minimal_run:%s: the on-demand lookup is keyed with the hash that %s compares (%s)' % (c.get('line'), hs[0]['callee'], fa[2] if fa else '?')
+        if want is not None and key_off == want:
+            chk.ok(R, inst, F.where(c))
+        else:
+            chk.violation(R, inst, F.where(c), 'the lookup key is %s: anchors supplied through the callback are searched under another name than the one they are '
+                          'matched against, static and dynamic anchor sets give different verdicts' % (fk[2] if fk else 'not a context field'), key='%s %s' % (R, hs[0]['callee']))
+    chk.floor('dynamic anchor lookups', n, 2)
+
+
 def oid_table(chk):
     """The certificate engines recognise algorithms, key types, curves, name attributes and extensions by comparing DER object
     identifiers with constants of the bytecode data block.  One wrong byte there and an extension silently stops being recognised
@@ -816,6 +878,7 @@ def run(tier):
     oid_table(chk)
     utf8_tables(chk)
     validity_range_orderings(chk)
+    dynamic_lookup_key_agrees(chk)
     ca_check_unavoidable(chk)
     min_rsa_size_signed(chk)
     from . import c11 as _c11
